@@ -451,6 +451,59 @@ theorem maxStreamID_monotone (reg : List (Bytes × Bytes)) (s : SrvState) (op : 
     · exact hbump
 
 
+/-- `t.maxStreamID = streamID` happens as soon as the id check is passed — before any of the later
+rejections (duplicate host, connection header, content-type, header error, draining, REFUSED_STREAM,
+:method, expired deadline): the id of a request that is turned down is used up all the same. -/
+theorem accepted_id_recorded (reg : List (Bytes × Bytes)) (s : SrvState) (r : Req)
+    (h : passesIdCheck s r = true) : (step reg s (.headers r)).1.maxStreamID = r.id := by
+  have hbump : (bumpId s r).maxStreamID = r.id := by unfold bumpId; rw [h]; rfl
+  have hnr : framerRejects s r = false := by
+    unfold passesIdCheck at h
+    unfold framerRejects
+    simp only [Bool.and_eq_true] at h
+    have h2 := h.2
+    split at h2
+    · cases h2
+    · rfl
+  have hnt : isTruncated s r = false := by
+    unfold passesIdCheck at h
+    unfold isTruncated
+    simp only [Bool.and_eq_true] at h
+    have h2 := h.2
+    split at h2
+    · cases h2
+    · simp only [Bool.and_eq_true, Bool.not_eq_true'] at h2; exact h2.1.1
+  simp only [step]
+  unfold stepHeaders
+  simp only
+  split
+  · exact hbump
+  · exact hbump
+  · simp only [hnr, hnt, Bool.false_eq_true, ↓reduceIte]; exact hbump
+  · exact hbump
+  · exact hbump
+  · split
+    · exact hbump
+    · exact hbump
+
+theorem run_maxStreamID_monotone (reg : List (Bytes × Bytes)) (s : SrvState) (ops : List Op) :
+    s.maxStreamID ≤ (run reg s ops).maxStreamID := by
+  induction ops generalizing s with
+  | nil => exact Nat.le_refl _
+  | cons o os ih => exact Nat.le_trans (maxStreamID_monotone reg s o).1 (ih _)
+
+/-- **A used id is never handled later.** Once a HEADERS frame with a legal id `k` has been received —
+whether it was handled, refused with REFUSED_STREAM or answered with an early abort — no request
+with an id ≤ k is handed to a handler, after any further sequence of frames. -/
+theorem used_id_never_handled_later (reg : List (Bytes × Bytes)) (s : SrvState) (r : Req) (ops : List Op)
+    (h : passesIdCheck s r = true) (r' : Req) (hle : r'.id ≤ r.id) :
+    ∀ to, serve (run reg (step reg s (.headers r)).1 ops) r' ≠ .handle to := by
+  apply illegal_id_never_handled
+  right
+  have h1 := accepted_id_recorded reg s r h
+  have h2 := run_maxStreamID_monotone reg (step reg s (.headers r)).1 ops
+  omega
+
 /-! ### non-vacuity -/
 
 def validReq (id : Nat) : Req :=
